@@ -348,7 +348,9 @@ def check_coverage(v, where, cov, root, files1, model):
     """coverage export (parsed JSON) against the single-platform analysis result `files1`"""
     att1, _ = attribution_of(files1)
     want = {}
-    for p, (_, d) in att1.items():
+    for p, (is_link, d) in att1.items():
+        if is_link:
+            continue  # a link to a member has no record of its own: the member's record carries the lines once (C15)
         want["/".join(p)] = (sorted(ln for ln, k in d.items() if k), sorted(ln for ln, k in d.items() if not k))
     got = {}
     for rec in cov:
@@ -372,7 +374,8 @@ def check_coverage(v, where, cov, root, files1, model):
     if model is not None:
         mc = [("/".join(r["path"]), r["used"], r["unused"]) for r in model["coverage"]]
         gc = [(r["file"], r["used_lines"], r["unused_lines"]) for r in cov]
-        if mc != gc:
+        # record order (sorted by file name since the D29 repair) is C14's subject; here the records are compared as a set
+        if sorted(mc) != sorted(gc):
             v.m(f"{where}: coverage records differ from the model (first: {next(((a, b) for a, b in zip(gc, mc) if a != b), (len(gc), len(mc)))})")
 
 
